@@ -13,7 +13,11 @@
                          +---------------------+--------------------> failed <----------------+
 
    Crash is enabled in EVERY state of a live process (alive' = FALSE, nothing else
-   changes: what is on disk stays on disk).  Restart/AutoLoad reads "gr" and only "gr".
+   changes: what is on disk stays on disk).
+   Recovery is part of the specification: after a process is gone the next one is started
+   in the same directory (Boot: what the start-up code of a new process does with what it
+   finds there - "gr" and the leftover temporary files; the code does nothing, BootDisk(d, t) = d)
+   and then auto-loads (Restart/AutoLoad reads "gr" and only "gr").
    Retry is a second AutoSave in the same process after a failed one.  Restart and Retry
    open the next session (up to MaxSessions) with whatever litter the previous one left.
 
@@ -31,12 +35,17 @@
      RestartOldOrNew    a Restart yields loaded' \in {old.ls, new}
      LeftoverNeverRead  a Restart yields exactly the lines of "gr", whatever the temp files hold
      SkipTouchesNothing the nothing-changed path leaves the whole directory as it was
+     Atomic also holds in the state after Boot (old/new are still those of the process that is gone):
+     starting the next process leaves "gr" the complete previous or the complete new file
 
    Deliberate deviations (constants), used to show that the invariants bite:
      DirectWrite       create and write "gr" in place (no temp file)       -> Atomic fails
      IgnoreWriteError  carry on to the rename after a failed write         -> Atomic, FailedLeavesOld fail
      RenameEarly       the rename may happen before the last binding is written,
                        the remaining writes go to the renamed file             -> Atomic fails
+     PromoteLeftover   the start-up of the next process "finishes" an interrupted save: it renames
+                       the temporary file the dead process was writing over "gr" without knowing
+                       whether that file is complete                           -> Atomic fails
 
    `hist` is a history variable outside the VIEW; every transition that ends a session
    (Crash, *Fails, Rename, Skip) is emitted with it (GEN) and replayed by harness/c18.go
@@ -51,6 +60,7 @@ CONSTANTS N,                \* binding names are 1..N
           Vals,             \* value versions of a binding (positive integers)
           MaxSessions,      \* sessions (process starts / retries) per behaviour; also the number of temp names
           DirectWrite, IgnoreWriteError, RenameEarly,   \* BOOLEAN deviations, all FALSE = the code
+          PromoteLeftover,  \* BOOLEAN deviation of the start-up of the next process
           EmitOn            \* BOOLEAN: emit session-ending transitions (GEN)
 
 VARIABLES disk,     \* file name -> file
@@ -91,8 +101,17 @@ Init ==
   /\ loaded = old.ls /\ session = 1
   /\ hist = <<[a |-> "init", old |-> old, new |-> new, changed |-> changed]>>
 
+\* What the start-up of a new process makes of the directory d it finds; t = the temporary file the
+\* previous process was writing when it went away ("none": it was not saving).  The code (main.go, repl)
+\* looks at nothing but "gr": leftovers stay where they are and are never promoted.
+BootDisk(d, t) ==
+  IF PromoteLeftover /\ t \notin {"none", GR} /\ d[t].ex
+  THEN [d EXCEPT ![GR] = d[t], ![t] = NoFile]
+  ELSE d
+
+\* `boot`: the directory as the next process leaves it after its start-up (prediction for the GEN replay)
 Emit(kind) ==
-  EmitOn => EmitLine(ToJson([h |-> hist', disk |-> disk', end |-> kind]))
+  EmitOn => EmitLine(ToJson([h |-> hist', disk |-> disk', boot |-> BootDisk(disk', tmp'), end |-> kind]))
 
 Log(ev) == hist' = Append(hist, ev)
 
@@ -189,8 +208,17 @@ Crash ==
   /\ Emit("crash")
 
 \* ------------------------------------------------------------------ next session
-\* AutoLoad of a fresh process: ".gr" and nothing else
-Load == ~alive /\ pc # "end" /\ loaded' = disk[GR].ls
+\* session start: a new process is started in the directory of the one that is gone (the crash position
+\* kept in pc is forgotten); its start-up code runs before anything is loaded
+Boot ==
+  /\ ~alive /\ pc \notin {"boot", "end"}
+  /\ pc' = "boot"
+  /\ disk' = BootDisk(disk, tmp)
+  /\ Log([a |-> "boot"])
+  /\ UNCHANGED <<tmp, old, new, written, alive, changed, loaded, session>>
+
+\* AutoLoad of the started process: ".gr" and nothing else
+Load == ~alive /\ pc = "boot" /\ loaded' = disk[GR].ls
 
 NewSession(nw, ch) ==
   /\ old' = disk[GR] /\ new' = nw /\ changed' = ch
@@ -218,7 +246,7 @@ Retry ==
   /\ UNCHANGED loaded
 
 Next == \/ Skip \/ Start \/ CreateTemp \/ CreateFails \/ WriteTorn \/ WriteBinding \/ WriteFails
-        \/ WriteDone \/ Rename \/ RenameTooEarly \/ RenameFails \/ Crash \/ Restart \/ Retry
+        \/ WriteDone \/ Rename \/ RenameTooEarly \/ RenameFails \/ Crash \/ Boot \/ Restart \/ Retry
 
 Spec == Init /\ [][Next]_vars
 
@@ -227,7 +255,7 @@ TypeOK ==
   /\ DOMAIN disk = FileNames
   /\ \A f \in FileNames : disk[f].ex \in BOOLEAN /\ (~disk[f].ex => disk[f].ls = <<>>)
   /\ tmp \in FileNames \cup {"none"}
-  /\ pc \in {"idle", "start", "write", "written", "done", "failed", "end"}
+  /\ pc \in {"idle", "start", "write", "written", "done", "failed", "boot", "end"}
   /\ written \in 0..N /\ alive \in BOOLEAN /\ changed \in BOOLEAN /\ session \in 1..MaxSessions
   /\ new \in Contents
 
@@ -237,8 +265,11 @@ LoadedOldOrNew  == pc = "end" => loaded \in {old.ls, new}
 \* the temp file being written never *is* the state file, and the state file is never torn
 StateFileWhole  == ~IsTorn(disk[GR])
 
-RestartOldOrNew    == [][(~alive /\ pc # "end") => loaded' \in {old.ls, new}]_vars
-LeftoverNeverRead  == [][(~alive /\ pc # "end") => loaded' = disk[GR].ls]_vars
+RestartOldOrNew    == [][(~alive /\ pc = "boot") => loaded' \in {old.ls, new}]_vars
+LeftoverNeverRead  == [][(~alive /\ pc = "boot") => loaded' = disk[GR].ls]_vars
+\* the start-up of the next process leaves "gr" the complete previous or the complete new file (Atomic in the
+\* boot state, stated as a step so that a counterexample names the action)
+BootOldOrNew       == [][(~alive /\ pc' = "boot") => disk'[GR] \in {old, File(new)}]_vars
 SkipTouchesNothing == [][(alive /\ alive' /\ pc = "idle" /\ ~changed /\ session' = session) => disk' = disk]_vars
 \* a step of a live process changes "gr" only by the rename, and then to the complete new content
 OnlyRenameCommits  == [][(disk'[GR] # disk[GR]) => (pc = "written" /\ pc' = "done" /\ disk'[GR] = File(new))]_vars
